@@ -6,10 +6,13 @@ VF_COMP(uint64_t, 1, 1, float);
 VF_COMP(uint32_t, 8, 0, float);
 #endif
 #if VF_GROUP == 1
+VF_COMP_ENUM(uint64_t, 1, 1, float);
+VF_COMP_ENUM(uint32_t, 2, 0, float);
 VF_COMP(uint16_t, 2, 4, float);
 VF_COMP(uint8_t, 4, 2, double);
 #endif
 #if VF_GROUP == 2
+VF_COMP_ENUM(uint16_t, 1, 256, float);
 VF_COMP(uint32_t, 32, 256, float);
 VF_COMP(uint64_t, 128, 16, double);
 #endif
